@@ -29,7 +29,9 @@ MANIFEST = {
             '0..65535 plus extremes, names with blanks, punctuation, #, '
             'braces, brackets, backslashes and non-ASCII characters; the '
             'captured script must compile and, replayed against the perturbed '
-            'devices, restore every captured value exactly. Sampled.',
+            'devices, restore every captured value exactly. Sampled.'
+            ' Light names that differ from another only by case or blanks'
+            ' are part of the populations.',
     'note': 'Trusted: simulated devices (zone/tile semantics as in '
             'bvf/simnet.py). The web path writes into a scratch script '
             'directory under /verif/.work and is executed through '
